@@ -19,6 +19,7 @@ func init() {
 		Assumptions: []string{"sort.Slice sorts by the given less function", "status.Error(f) builds a status with the given code"},
 		Run:         runC01,
 		Controls: []Control{
+			{Name: "allow-missing-ignores-argument", File: "pkg/resource/opt.go", Old: "\t\trequest.allowMissing = allowMissing\n", New: "\t\trequest.allowMissing = true\n", Expect: "R01.12"},
 			{Name: "delete-value-before-check", File: "pkg/resource/collection.go", Old: "\t\tif args.expectedCheck != nil {\n\t\t\tif err := args.expectedCheck(oldVal.body); err != nil {\n\t\t\t\treturn oldVal.body, err\n\t\t\t}\n\t\t}\n\t\tif args.expectedValue != nil && !proto.Equal(oldVal.body, args.expectedValue) {\n\t\t\treturn oldVal.body, ExpectedValuePreconditionFailed\n\t\t}\n", New: "\t\tif args.expectedValue != nil && !proto.Equal(oldVal.body, args.expectedValue) {\n\t\t\treturn oldVal.body, ExpectedValuePreconditionFailed\n\t\t}\n\t\tif args.expectedCheck != nil {\n\t\t\tif err := args.expectedCheck(oldVal.body); err != nil {\n\t\t\t\treturn oldVal.body, err\n\t\t\t}\n\t\t}\n", Expect: "R01.11"},
 			{Name: "drop-change-error-test", File: "pkg/resource/atomic.go", Old: "\tif newValue, err = change(oldValue, newValue); err != nil {\n\t\treturn oldValue, newValue, err\n\t}", New: "\tnewValue, err = change(oldValue, newValue)", Expect: "R01.1"},
 			{Name: "publish-before-error-check", File: "pkg/resource/value.go", Old: "\tdisarm()\n\n\tif err != nil {\n\t\treturn nil, err\n\t}\n", New: "\tdisarm()\n", Expect: "R01.1"},
@@ -63,6 +64,8 @@ func runC01(c *an.Ctx) {
 	c.Min("R01.4", 1)
 	c.Min("R01.5", 3)
 	r0111(c)
+	r0112(c, "R01.12")
+	c.Min("R01.12", 20)
 	c.Min("R01.11", 1)
 	c.Min("R01.6", 6)
 	c.Min("R01.7", 5)
@@ -179,7 +182,39 @@ func r011(c *an.Ctx) {
 		}
 		name := "(*pkg/resource." + t[0] + ")." + t[1]
 		vals := an.CallsTo(fn, "(*"+an.ModulePath+"/pkg/masks.FieldUpdater).Validate")
-		gaus := an.CallsTo(fn, gauName)
+		// the write may sit in a helper (set = store + publish): its call stands for GetAndUpdate, its error result for
+		// GetAndUpdate's when the helper hands that error on
+		type write struct {
+			site   *ssa.Call
+			errIdx int
+		}
+		var gaus []write
+		for _, vc := range an.CallsToDeep(fn, gauName) {
+			site, isCall := vc.Site.(*ssa.Call)
+			if !isCall {
+				continue
+			}
+			if vc.Via == nil {
+				gaus = append(gaus, write{site, 2})
+				continue
+			}
+			inner, _ := vc.Inner.(*ssa.Call)
+			last := vc.Via.Signature.Results().Len() - 1
+			if inner == nil || !vc.Must || last < 0 || !an.IsErrorType(vc.Via.Signature.Results().At(last).Type()) {
+				continue
+			}
+			hands := true
+			for _, r := range an.Returns(vc.Via) {
+				for _, v := range an.ValuesAt(r.Results[last]) {
+					if !an.IsExtractOf(v, inner, 2) {
+						hands = false
+					}
+				}
+			}
+			if hands {
+				gaus = append(gaus, write{site, last})
+			}
+		}
 		if len(vals) == 0 || len(gaus) == 0 {
 			c.Bad(rule, name+"|validate before write", fn.Pos(), fmt.Sprintf("Validate calls: %d, GetAndUpdate calls: %d; the update mask is not validated before the write", len(vals), len(gaus)))
 			continue
@@ -187,21 +222,24 @@ func r011(c *an.Ctx) {
 		for _, g := range gaus {
 			ok := false
 			for _, v := range vals {
-				if guardedByNilValue(g, v.(*ssa.Call)) {
+				if guardedByNilValue(g.site, v.(*ssa.Call)) {
 					ok = true
 				}
 			}
-			c.Check(ok, rule, name+"|validate before write", g.Pos(), "GetAndUpdate only reachable when Validate returned nil", "GetAndUpdate is reachable although FieldUpdater.Validate failed: an invalid mask changes the resource")
+			c.Check(ok, rule, name+"|validate before write", g.site.Pos(), "GetAndUpdate only reachable when Validate returned nil", "GetAndUpdate is reachable although FieldUpdater.Validate failed: an invalid mask changes the resource")
 			for _, vc := range an.CallsToDeep(fn, busSend) {
 				s := vc.Site
-				c.Check(an.GuardedByNilResult(s, g.(*ssa.Call), 2), rule, name+"|publish only after a successful write", s.Pos(),
+				if s == ssa.Instruction(g.site) {
+					continue // write and publication inside one helper: ordered there
+				}
+				c.Check(an.GuardedByNilResult(s, g.site, g.errIdx), rule, name+"|publish only after a successful write", s.Pos(),
 					"Bus.Send guarded by GetAndUpdate's nil error", "Bus.Send is reachable although GetAndUpdate failed: a rejected write emits an event")
 			}
 		}
 		// (iv) error after effect
 		for _, g := range gaus {
 			for _, r := range an.Returns(fn) {
-				if !an.Reaches(g, r) || !an.GuardedByNilResult(r, g.(*ssa.Call), 2) {
+				if !an.Reaches(g.site, r) || !an.GuardedByNilResult(r, g.site, g.errIdx) {
 					continue // paths where the write failed
 				}
 				errOp := r.Results[len(r.Results)-1]
@@ -1591,4 +1629,43 @@ func r0111(c *an.Ctx) {
 	}
 	c.Check(bad == nil, rule, name+"|expected check before expected value", pos, fmt.Sprintf("%d check invocation(s), %d value comparison(s)", len(checks), len(values)),
 		"within one attempt the expected value is compared before the expected check has run: with both preconditions configured and both failing, Delete returns the value sentinel instead of the check's own error and the check callback is not invoked")
+}
+
+// r0112: an option carries what it was given. Every constructor of an option (resource, read, write, model, server …) that
+// takes parameters uses each of them: the closure it returns (or the value it builds) depends on the parameter, so
+// WithAllowMissing(false), WithBackpressure(false), WithUpdatesOnly(false) … mean what they say.
+func r0112(c *an.Ctx, rule string) {
+	n := 0
+	for _, fn := range c.Prog.FuncsIn("pkg") {
+		if c.Prog.IsGenerated(fn.Pos()) || fn.Parent() != nil || fn.Signature.Recv() != nil || fn.Signature.Results().Len() != 1 || len(fn.Params) == 0 {
+			continue
+		}
+		rt := an.NamedTypeName(fn.Signature.Results().At(0).Type())
+		if !strings.HasPrefix(rt, an.ModulePath+"/pkg/") || !strings.HasSuffix(rt, "Option") {
+			continue
+		}
+		if obj := fn.Object(); obj == nil || !obj.Exported() {
+			continue
+		}
+		n++
+		c.SawFunc(an.FuncName(fn))
+		var unused []string
+		for _, p := range fn.Params {
+			if p.Name() == "_" || p.Name() == "" {
+				continue
+			}
+			used := false
+			for _, u := range an.Referrers(p) {
+				if _, isDbg := u.(*ssa.DebugRef); !isDbg {
+					used = true
+				}
+			}
+			if !used {
+				unused = append(unused, p.Name())
+			}
+		}
+		c.Check(len(unused) == 0, rule, an.FuncName(fn)+"|the option depends on every argument", fn.Pos(), fmt.Sprintf("%d parameter(s) used", len(fn.Params)),
+			"parameter "+strings.Join(unused, ", ")+" is never used: the option ignores what the caller asked for (WithAllowMissing(false) still allows a missing item, so Delete of an unknown id reports success instead of NotFound)")
+	}
+	c.Count("option_constructors_with_parameters", n)
 }
